@@ -584,6 +584,46 @@ def _resetbefore(ctx, facts, fid):
                           "permut_generator.next() is reachable without a preceding reset() for the same item: slot order leaks between items")
 
 
+def drawseq_rule(ctx, facts, fid):
+    """DRAWSEQ: inside the draw loop of one item, every draw on the item's generator happens on every iteration that is not the
+    last one: no draw is under a condition (an `if`, or an earlier `if .. { continue }`) other than the loop's own exits. A draw
+    made only when a register could improve makes the item's later values depend on what was sketched before it."""
+    from ..rulelib import seed_sites
+    fn = facts.fn(fid)
+    t = tree_of(fn)
+    gens = set()
+    for x in user_nodes(fn):
+        if x["k"] == "Let" and x["pat"].get("k") == "Bind" and "init" in x and any(y in seed_sites(fn) for y in hirq.walk(x["init"])):
+            gens.add(x["pat"]["id"])
+    if not gens:
+        return 0
+    n = 0
+    for x in user_nodes(fn):
+        if x["k"] != "MethodCall" or x["name"] not in ("sample", "next", "random", "random_range", "next_u32", "next_u64", "gen", "gen_range"):
+            continue
+        if not any(y["k"] == "Path" and y.get("res", {}).get("local") in gens for y in hirq.walk(x)):
+            continue
+        loops = t.enclosing_loops(x)
+        if not loops:
+            continue
+        n += 1
+        lp = loops[-1]
+        conds = nf.all_conditions(t, x, stop=lp)
+        if lp["src"] == "While":
+            b_ = lp["body"]
+            first = b_.get("expr") if not b_["stmts"] else None
+            if first is not None and first["k"] == "If":
+                own = nf.atoms(first["c"], True)
+                conds = [c for c in conds if c not in own]
+        if conds:
+            ctx.violation("DRAWSEQ", fid, "conditional draw", hirq.loc(x),
+                          "`%s` draws from the item's generator only when %s: the number of values taken from it, hence every later value of "
+                          "the item, depends on the state of the sketch" % (hirq.show(x)[:60], conds[:2]))
+        else:
+            ctx.ok("DRAWSEQ", fid, "`%s` on every iteration of the draw loop" % hirq.show(x)[:50], hirq.loc(x))
+    return n
+
+
 def skip_rule(ctx, facts, fid):
     """SKIP: a sketch method processes every item: no `return`, `?` or `continue` can leave it before its last register write
     (the tabled early exits of the draw loops are breaks and are classified by EXIT)"""
@@ -697,8 +737,13 @@ def run(ctx, facts):
     _histo(ctx, facts, SMH + "sketch", "smh")
     if has2:
         _histo(ctx, facts, SMH2 + "sketch", "smh2")
+    ctx.rule("DRAWSEQ", "inside the draw loop of one item every draw on the item's generator is made on every iteration (no `if`, no earlier "
+                        "`continue`): the values an item offers do not depend on what was sketched before it")
+    nd = 0
     for fid in [SMH + "sketch", SS + "sketch", OD + "sketch", RD + "sketch"] + ([SMH2 + "sketch"] if has2 else []):
         skip_rule(ctx, facts, fid)
+        nd += drawseq_rule(ctx, facts, fid)
+    ctx.floor("C04 draws inside draw loops", nd, 4)
     # SetSketch prunes draws against lower_k: a bound above some register makes the registers depend on the order of arrival
     from . import C05 as _C05
     ctx.rule("LOWER", _C05.RULES["LOWER"])
